@@ -34,6 +34,27 @@ struct ConvS {
   static long id(const T& v) { return v.size() > 5 ? atol(v.c_str() + 5) : -1; }
 };
 
+// A user-supplied SerDe that reads the standard item format but reports a short stream only through the stream state
+// (it constructs every item and does not throw): the readers' own `if (!is.good()) throw` and the clean-up of H and R
+// items already constructed are then what rejects a truncated stream.
+template<class T> struct lenient_serde;
+template<> struct lenient_serde<int64_t> : serde<int64_t> {
+  using serde<int64_t>::deserialize;
+  void deserialize(std::istream& is, int64_t* items, unsigned num) const {
+    for (unsigned i = 0; i < num; i++) { items[i] = 0; is.read((char*)&items[i], 8); }
+  }
+};
+template<> struct lenient_serde<std::string> : serde<std::string> {
+  using serde<std::string>::deserialize;
+  void deserialize(std::istream& is, std::string* items, unsigned num) const {
+    for (unsigned i = 0; i < num; i++) {
+      uint32_t len = 0; is.read((char*)&len, 4); std::string str;
+      if (is.good()) for (uint32_t j = 0; j < len && is.good(); j++) { int c = is.get(); if (c != EOF) str.push_back((char)c); }
+      new (&items[i]) std::string(std::move(str));
+    }
+  }
+};
+
 static std::string clean(const std::string& s) {
   std::string r; for (char c : s) r += (c == '"' || c == '\\' || (unsigned char)c < 32) ? ' ' : c; return r;
 }
@@ -220,6 +241,35 @@ template<class C> struct Seg {
     // the harness does not know the stream of the blob's source any more than the spec tells it: recover ids/total from the event log side
     e.i("consumed", consumed).bytes("reimg", re.data(), re.size()).raw("s", proj<C>(*sk[j])).emit();
   }
+  // damaged images (C11 clauses inside this family's driver): a truncated image, or one whose first H weight is made
+  // non-positive, must be refused by an exception and nothing else happens
+  void opDeserBad(int b) {
+    const std::vector<uint8_t>& img = blob[b].bytes; bool isU = blob[b].isUnion;
+    if (img.size() < 9) return;
+    int kind = (int)g.below(isU ? 3 : 5);     // 0 stream+lenient serde, 1 stream, 2 bytes (all truncated); 3/4 non-positive weight (sketch images)
+    std::vector<uint8_t> bad(img); long cut = -1; const char* what = "truncated";
+    if (kind <= 2) { cut = g.chance(70) && img.size() > 40 ? g.range(33, (long)img.size() - 1) : g.range(1, (long)img.size() - 1); bad.resize((size_t)cut); }
+    else {
+      unsigned pre = img[0] & 0x3f; uint32_t h = 0; if (pre >= 3) memcpy(&h, &img[16], 4);
+      if (pre < 3 || h == 0) return;
+      size_t off = (size_t)pre * 8;
+      if (kind == 3) { bad[off + 7] |= 0x80; what = "negative-weight"; } else { memset(&bad[off], 0, 8); what = "zero-weight"; }
+    }
+    bool refused = false; std::string ex;
+    try {
+      if (kind == 0 || (kind >= 3 && g.chance(50))) {
+        std::istringstream is(std::string((const char*)bad.data(), bad.size()));
+        if (isU) { UN r = UN::deserialize(is, lenient_serde<T>()); (void)r; } else { SK r = SK::deserialize(is, lenient_serde<T>()); (void)r; }
+      } else if (kind == 1) {
+        std::istringstream is(std::string((const char*)bad.data(), bad.size()));
+        if (isU) { UN r = UN::deserialize(is); (void)r; } else { SK r = SK::deserialize(is); (void)r; }
+      } else {
+        if (isU) { UN r = UN::deserialize(bad.data(), bad.size()); (void)r; } else { SK r = SK::deserialize(bad.data(), bad.size()); (void)r; }
+      }
+    } catch (std::exception& e) { refused = true; ex = clean(e.what()); }
+    Ev("DeserBad").i("blob", b).str("what", what).str("path", kind == 0 ? "stream-lenient-serde" : kind == 1 ? "stream" : kind == 2 ? "bytes" : "mixed")
+      .i("cut", cut).i("size", (long long)img.size()).b("union", isU).b("refused", refused).str("ex", ex.substr(0, 80)).emit();
+  }
   // ---- union ----
   void opUNew(int u, long k) {
     udrop(u);
@@ -322,6 +372,7 @@ template<class C> struct Seg {
         else { int u = (int)g.below(NU); if (un[u]) opUSer(u, b); }
       } else {
         int b = (int)g.below(NB);
+        if (blob[b].live && g.chance(25)) opDeserBad(b);
         if (blob[b].live && !blob[b].isUnion) {
           int j = (int)g.below(NS); opDeser(b, j);
           if (sk[j] && restored[j]) { ids[j] = sblobIds[b]; total[j] = sblobTotal[b]; fromUnion[j] = sblobFromUnion[b]; }
@@ -362,6 +413,41 @@ template<class C> struct Seg {
       if (keep && sk[0] && sk[1]) {                  // same inputs, other order, rvalue
         opUNew(1, mk); opUUpdate(1, second, true); if (un[1] && sk[first]) opUUpdate(1, first, true);
         if (un[1]) { opUResult(1, 3); if (sk[3]) opObs(3); }
+      }
+      for (int i = 0; i < NS; i++) drop(i);
+      for (int u = 0; u < NU; u++) udrop(u);
+    }
+  }
+
+  // unions whose inputs are PURE RESERVOIRS (h = 0: equal weights inside each input, so every sample carries tau) of
+  // different k, fill and tau, with max_k below / between / above the inputs' k: the gadget then holds only marked
+  // items and resolution has to shrink k; also reservoir + exact-mode input, and three inputs
+  void runReservoirs(long rounds) {
+    for (long r = 0; r < rounds; r++) {
+      int nin = (int)g.range(2, 3); long kmin = 1000, kmax = 0;
+      for (int i = 0; i < nin; i++) {
+        long k = g.range(1, 10); long w = g.chance(40) ? 1 : g.range(1, 12) * (g.chance(30) ? 100 : 1);
+        bool exact = (i == nin - 1) && g.chance(25);
+        long n = exact ? g.range(1, k) : k + g.range(1, 25);
+        opNew(i, k); for (long t = 0; t < n; t++) opUpdate(i, w, g.chance(30));
+        kmin = std::min(kmin, k); kmax = std::max(kmax, k);
+      }
+      long mk = g.chance(34) ? g.range(1, kmin) : g.chance(50) ? g.range(kmin, kmax) : g.range(kmax, 3 * kmax + 2);
+      opUNew(0, mk);
+      bool ser = g.chance(25);
+      for (int i = 0; i < nin && un[0]; i++) {
+        if (sk[i]) opUUpdate(0, i, g.chance(40));
+        if (un[0] && g.chance(40)) { opUResult(0, 3); if (sk[3]) opObs(3); }
+      }
+      if (!un[0]) continue;
+      if (ser) { opUSer(0, 0); if (blob[0].live) { opDeserBad(0); opUDeser(0, 1); if (un[1]) { opUResult(1, 4); if (sk[4]) opObs(4); } } }
+      opUResult(0, 3);
+      if (sk[3]) {
+        opObs(3);
+        long more = g.range(1, 4);
+        for (long t = 0; t < more && sk[3]; t++) opUpdate(3, g.range(1, 12), g.chance(40));
+        if (sk[3]) opObs(3);
+        if (sk[3] && g.chance(40)) { opSer(3, 1); if (blob[1].live && !blob[1].isUnion) { sblobIds[1] = ids[3]; sblobTotal[1] = total[3]; sblobFromUnion[1] = fromUnion[3]; opDeserBad(1); } }
       }
       for (int i = 0; i < NS; i++) drop(i);
       for (int u = 0; u < NU; u++) udrop(u);
@@ -474,6 +560,8 @@ int main(int argc, char** argv) {
   if (regimes > 0) {
     { Ev("Begin").i("seg", segno++).str("type", "i64").str("kind", "regimes").emit(); Seg<ConvI> s(g, maxk); s.runRegimes(regimes); }
     { Ev("Begin").i("seg", segno++).str("type", "str").str("kind", "regimes").emit(); Seg<ConvS> s(g, maxk); s.runRegimes(regimes / 2); }
+    { Ev("Begin").i("seg", segno++).str("type", "str").str("kind", "reservoirs").emit(); Seg<ConvS> s(g, maxk); s.runReservoirs(regimes); }
+    { Ev("Begin").i("seg", segno++).str("type", "i64").str("kind", "reservoirs").emit(); Seg<ConvI> s(g, maxk); s.runReservoirs(regimes / 2); }
   }
   for (long seg = 0; seg < segments; seg++) {
     bool str = (seg % 2 == 1);
